@@ -45,6 +45,12 @@ def char_tasks(count, cfgs, chunks=32, **kw):
     return split_tasks("walk", params, count, [], cfgs, chunks=chunks, cfg_mode="rotate", **kw)
 
 
+def mlshape_tasks(tier, cfgs, chunks=32, **kw):
+    """statements holding two or three multi-line literals: container x suffix x per-literal displacement (0 = in place)"""
+    params = {"max": Q(tier, 6000, 80000)}
+    return split_tasks("mlshapes", params, suite_len("mlshapes", params), [], cfgs, chunks=chunks, **kw)
+
+
 def seed_tasks(cfgs, chunks=32, **kw):
     n = suite_len("seeds", {})
     return split_tasks("seeds", {}, n, [], cfgs, chunks=chunks, wrap_hint=True, **kw)
@@ -355,6 +361,7 @@ def c03(tier):
     build(("release",))
     c = Check("C03", tier, "exploration")
     tasks = wf_corpus(tier, Q(tier, "six", "wide")) + texts_tasks(dirblock_programs(c, tier), "six", chunks=32, cfg_mode="rotate", sample_every=Q(tier, 997, 9973))
+    tasks += mlshape_tasks(tier, "six", cfg_mode="rotate", sample_every=Q(tier, 997, 9973))
     c.explore(tasks, "wf", ["C03"], sample_cap=Q(tier, 150, 800))
     # the command-line form of the property: check mode accepts what files mode wrote; a second run rewrites nothing
     import cli, random
@@ -443,6 +450,7 @@ def c11(tier):
     c = Check("C11", tier, "exploration")
     tasks = seed_tasks(Q(tier, "default", "two"), sample_every=Q(tier, 211, 499))
     tasks += program_tasks(tier, Q(tier, "default", "two"), [PLAIN, COMMENTS], sample_every=Q(tier, 499, 4999))
+    tasks += mlshape_tasks(tier, "default", sample_every=Q(tier, 997, 9973))
     c.explore(tasks, "width", ["C11"], sample_cap=Q(tier, 12, 100))
     return c.finish(
         rule="seeds and generated programs formatted at widths {10,20,40,80,120,200} plus the critical widths around the line lengths of their own output; every pair W1 < W2 is a `width` relation of Session.tla (three clauses)")
@@ -680,6 +688,7 @@ def c12(tier):
     tasks = program_tasks(tier, cfgs, [PLAIN, MIXED, CRLFTABS], cfg_mode="rotate", sample_every=Q(tier, 499, 4999))
     tasks += seed_tasks(cfgs, sample_every=Q(tier, 97, 997))
     tasks += split_tasks("scaled", {"max_k": Q(tier, 40, 80)}, Q(tier, 40, 80) * 12, [], cfgs, chunks=16, sample_every=Q(tier, 97, 499))
+    tasks += mlshape_tasks(tier, cfgs, cfg_mode="rotate", sample_every=Q(tier, 997, 9973))
     c.explore(tasks, "mlstrings", ["C12"], sample_cap=Q(tier, 80, 400))
     return c.finish(
         rule="multi-line literals in generated programs (3 and 5 quotes, several bodies and indentations, every expression position of the grammar) and in the seeds, under 5 configurations; per literal: value equal and re-indented like the opening quotes' line when it obeys the indentation rule and the option is on, byte-identical otherwise")
